@@ -18,12 +18,22 @@ def bounds(tier):
 
 
 def cases(tier, seed):
+    # one case per (scheme, order): every option combination of the family lives in ONE process, run in catalogue order and then again
+    # (fresh instances) in reverse order, so that state shared between differently configured instances is exposed deterministically
+    groups = {}
     for spec in MC.schemes(tier):
-        yield f"C05|{spec[0]}|{spec[1]}", {"spec": spec, "tier": tier}
+        groups.setdefault((spec[0], spec[2].get("order", spec[2].get("bits_per_symbol"))), []).append(spec)
+    for (scheme, order), specs in groups.items():
+        yield f"C05|{scheme}|order={order}", {"specs": specs, "tier": tier}
 
 
 def component_of(p):
-    return p["spec"][0]
+    return p["specs"][0][0]
+
+
+def execute(p, res):
+    for spec in list(p["specs"]) + (list(reversed(p["specs"])) if len(p["specs"]) > 1 else []):
+        run_spec({"spec": spec, "tier": p["tier"]}, res)
 
 
 def expected(kind, bits, b):
@@ -77,7 +87,7 @@ def roundtrip(mod, dem, x, kind, b, reset=True):
     return probs
 
 
-def execute(p, res):
+def run_spec(p, res):
     import torch
     spec = p["spec"]
     scheme, cfg, prm = spec
